@@ -169,11 +169,19 @@ def r2_evaluators(ctx):
         bad = []
         n = 0
         for size in range(0, 5):
-            for pattern in itertools.product((False, True), repeat=size):
+            # equal solutions next to each other / apart (selection leaves clones of one parent in a population): every
+            # individual is still evaluated on its own
+            dup_tags = {2: [("s0", "s0")], 3: [("s0", "s0", "s2"), ("s0", "s1", "s1"), ("s0", "s1", "s0")]}.get(size, [])
+            cases = []
+            for pattern_ in itertools.product((False, True), repeat=size):
+                cases.append((pattern_, tuple("s%d" % i for i in range(size))))
+                if len(set(pattern_)) <= 1:
+                    cases.extend((pattern_, tg_) for tg_ in dup_tags)
+            for pattern, tags in cases:
                 if size == 4 and pattern not in ((False,) * 4, (True, False, True, False)):
                     continue
                 n += 1
-                pop = tuple(Agg("adt", IND, "Individual", [Sym("s%d" % i), some(Sym("old%d" % i)) if pattern[i] else NONE]) for i in range(size))
+                pop = tuple(Agg("adt", IND, "Individual", [Sym(tags[i]), some(Sym("old%d" % i)) if pattern[i] else NONE]) for i in range(size))
 
                 def oracle(interp, env, f, args, t, bb, path):
                     k = f.get("key", "")
@@ -204,21 +212,21 @@ def r2_evaluators(ctx):
                 it = install(Interp(fn.body, chain(oracle, coll_oracle, std_oracle), [Sym("self"), Sym("problem"), Sym("state"), Vec("inds", True)], facts=F, inline=inl, max_visits=12))
                 it.init_state = {"heap": {"inds": pop}, "next_vec": 0}
                 for p in it.run():
-                    where = ([("evaluated" if e else "unevaluated") for e in pattern],)
+                    where = ([("evaluated" if e else "unevaluated") + ("" if len(set(tags)) == len(tags) else " with solution %s" % tags[i]) for i, e in enumerate(pattern)],)
                     if p.end != "return":
                         bad.append(where + ("does not return (%s)" % p.end,))
                         continue
                     after = p.mstate.get("heap", {}).get("inds", ())
                     calls = list(p.mstate.get("calls", ()))
                     sols = [getattr(x.fields[0], "tag", "?") if isinstance(x, Agg) and x.name == IND else "?" for x in after]
-                    if sols != ["s%d" % i for i in range(size)]:
+                    if sols != list(tags):
                         bad.append(where + ("leaves the individuals %s (same individuals, same order, same solutions are required)" % sols,))
                         continue
                     objs = [(getattr(x.fields[1].fields[0], "tag", "?") if isinstance(x.fields[1], Agg) and x.fields[1].variant == "Some" else None) for x in after]
-                    want = ["f(s%d)" % i for i in range(size)]
+                    want = ["f(%s)" % tg_ for tg_ in tags]
                     if objs != want:
                         bad.append(where + ("leaves objective values %s, expected %s" % (objs, want),))
-                    elif sorted(calls) != sorted("s%d" % i for i in range(size)):
+                    elif sorted(calls) != sorted(tags):
                         bad.append(where + ("calls the objective function on %s: exactly once per individual is required" % calls,))
         ctx.check(not bad, "C06.R2", fn.key, "everyone-evaluated-exactly-once", "slice of individuals %s: evaluate %s" % (bad[0] if bad else ("", "")), detail="%d slices" % n, loc=fn.loc())
     ctx.count("evaluator_slices", n * len(impls))
